@@ -575,7 +575,7 @@ pub fn run() {
         rep.finish(RULE, false);
         return;
     }
-    let total = args.budget(1500, 60_000, 10);
+    let total = args.budget(1500, 30_000, 10);
     let w = super::util::workers(2, 6, args.tier);
     let t0 = std::time::Instant::now();
     // The shipped program println!s on every protocol step (~7 KB per schedule); keep that out of the
